@@ -18,7 +18,9 @@ package main
 //   - a call of a function-typed PARAMETER (search predicate, visitor, encoder, mapping function) is a
 //     caller-supplied callback: listed, assumed not to write (the property's own "read-only visitor");
 //   - a call through a function-typed struct field fans out to every value assigned to that field
-//     anywhere in the analysed packages; any other dynamic call is conservative.
+//     anywhere in the analysed packages — including, when the field is assigned from a parameter of an
+//     option constructor (ListsMergeFunc(fn)), every named function the analysed packages pass to that
+//     constructor (ListsMergeAppend passes mergeListsAppend); any other dynamic call is conservative.
 
 import (
 	"fmt"
@@ -135,12 +137,20 @@ type effWorld struct {
 	gnames   []string
 	named    []*types.Named             // concrete named types of the analysed packages
 	fieldFns map[*types.Var][]effFieldV // func-typed struct field -> assigned values
+	setters  []effSetter                // func-typed field assigned from a parameter of a function (an option constructor)
 	pkgs     map[string]*types.Package
 }
 
 type effFieldV struct {
 	kind   string // "method" (bound to the holder of the field) | "func" | "callback" | "unknown"
 	callee *types.Func
+}
+
+// effSetter: function fn stores its idx-th parameter into the function-typed field.
+type effSetter struct {
+	fn    *types.Func
+	idx   int
+	field *types.Var
 }
 
 const effUnknownGlobal = "<unknown>"
@@ -287,6 +297,9 @@ func genEffects(repo string) (string, error) {
 	for _, pd := range pds {
 		w.collectFieldFuncs(pd.files, pd.info)
 	}
+	for _, pd := range pds {
+		w.collectSetterArgs(pd.files, pd.info)
+	}
 	// global fixpoint over return summaries
 	for round := 0; ; round++ {
 		if round > 50 {
@@ -321,6 +334,17 @@ func (w *effWorld) collectFieldFuncs(files []*ast.File, info *types.Info) {
 				if encl != nil && o.Parent() != nil && o.Pkg() != nil && o.Parent() != o.Pkg().Scope() && !o.IsField() {
 					if effIsParamOf(info, encl, o) {
 						v = effFieldV{"callback", nil}
+						// the value is whatever the callers of encl pass: besides the caller-supplied
+						// (outside) case, every function the analysed packages themselves pass is a
+						// possible value of the field (resolved in collectSetterArgs)
+						if fn, ok := info.Defs[encl.Name].(*types.Func); ok {
+							sig := fn.Type().(*types.Signature)
+							for i := 0; i < sig.Params().Len(); i++ {
+								if sig.Params().At(i) == o && !(sig.Variadic() && i == sig.Params().Len()-1) {
+									w.setters = append(w.setters, effSetter{fn, i, field})
+								}
+							}
+						}
 					}
 				}
 			}
@@ -374,6 +398,60 @@ func (w *effWorld) collectFieldFuncs(files []*ast.File, info *types.Info) {
 				return true
 			})
 		}
+	}
+}
+
+// collectSetterArgs: for every call, inside the analysed packages, of a function that stores a
+// parameter into a function-typed field (dom.ListsMergeFunc(fn) -> merger.listMergeFn), a named
+// function passed for that parameter becomes a possible value of the field, so a call through
+// the field fans out to it (in addition to the caller-supplied callback case).
+func (w *effWorld) collectSetterArgs(files []*ast.File, info *types.Info) {
+	if len(w.setters) == 0 {
+		return
+	}
+	funcOf := func(e ast.Expr) *types.Func {
+		switch x := ast.Unparen(e).(type) {
+		case *ast.Ident:
+			f, _ := info.Uses[x].(*types.Func)
+			return f
+		case *ast.SelectorExpr:
+			if sel := info.Selections[x]; sel != nil {
+				return nil // method value: bound receiver, not resolved here
+			}
+			f, _ := info.Uses[x.Sel].(*types.Func)
+			return f
+		}
+		return nil
+	}
+	for _, f := range files {
+		ast.Inspect(f, func(n ast.Node) bool {
+			call, ok := n.(*ast.CallExpr)
+			if !ok {
+				return true
+			}
+			callee := funcOf(call.Fun)
+			if callee == nil {
+				return true
+			}
+			callee = callee.Origin()
+			for _, st := range w.setters {
+				if st.fn != callee || st.idx >= len(call.Args) {
+					continue
+				}
+				arg := funcOf(call.Args[st.idx])
+				if arg == nil {
+					continue
+				}
+				dup := false
+				for _, v := range w.fieldFns[st.field] {
+					dup = dup || (v.kind == "func" && v.callee == arg)
+				}
+				if !dup {
+					w.fieldFns[st.field] = append(w.fieldFns[st.field], effFieldV{"func", arg})
+				}
+			}
+			return true
+		})
 	}
 }
 
